@@ -17,7 +17,10 @@ class DeleteAccordingDate:
         if parsed_days is None:
             return True
         else:
-            contents = self.reader.contents_of(trashinfo_path)
+            try:
+                contents = self.reader.contents_of(trashinfo_path)
+            except (IOError, OSError, UnicodeError):
+                return False
             now_value = self.clock.get_now_value(environ)
             deletion_date = parse_deletion_date(contents)
             if deletion_date is not None:
